@@ -3,6 +3,7 @@
 package pdnode_coord
 
 import (
+	"sync/atomic"
 	"time"
 
 	"github.com/youzan/ZanRedisDB/cluster"
@@ -119,3 +120,16 @@ func VerifCoordErrClass(e *cluster.CoordErr) string {
 	}
 	return "err:other"
 }
+
+// ---- C18: one pass of the coordinator's own check loop (doCheckNamespaces), with its waiting table kept by the caller
+
+// VerifDoCheckNamespaces runs ONE full pass of doCheckNamespaces, exactly what checkNamespaces does on every tick.
+func (pdCoord *PDCoordinator) VerifDoCheckNamespaces(waiting map[string]map[int]time.Time) {
+	pdCoord.doCheckNamespaces(make(chan struct{}), nil, waiting, true)
+}
+
+// VerifSetWaitMigrateInterval: the grace time between "replica lost" and the migration decision (a package variable).
+func VerifSetWaitMigrateInterval(d time.Duration) { waitMigrateInterval = d }
+
+// VerifSetStableNodeNum: what handleDataNodes maintains (the largest number of data nodes seen).
+func (pdCoord *PDCoordinator) VerifSetStableNodeNum(n int32) { atomic.StoreInt32(&pdCoord.stableNodeNum, n) }
